@@ -1,5 +1,14 @@
 import CklVerif.Gen.LibSrcCheck
 import CklVerif.Proofs.C19Src
+import CklVerif.Proofs.C19SrcSet
+import CklVerif.Proofs.C19SrcL1
+import CklVerif.Proofs.C19SrcL1b
+import CklVerif.Proofs.C19SrcMapList
+import CklVerif.Proofs.C19SrcD4Set
+import CklVerif.Proofs.C19SrcL2
+import CklVerif.Proofs.C19SrcL2b
+import CklVerif.Proofs.C19SrcL3
+import CklVerif.Proofs.C19SrcD4
 
 #print axioms Ckl.C19Src.def_creates_isSrc
 #print axioms Ckl.C19Src.libEnv_satisfiable
@@ -52,3 +61,92 @@ import CklVerif.Proofs.C19Src
 #print axioms Ckl.C19Src.reduce_src_null
 #print axioms Ckl.C19Src.prod_src_ints
 #print axioms Ckl.C19Src.prod_src_eq_mirror
+-- set.ckl (Proofs/C19SrcSet.lean)
+#print axioms Ckl.C19Src.intersection_src
+#print axioms Ckl.C19Src.diff_src
+#print axioms Ckl.C19Src.intersection_src_spec
+#print axioms Ckl.C19Src.diff_src_spec
+#print axioms Ckl.C19Src.append_all_src_set
+#print axioms Ckl.C19Src.union_src
+#print axioms Ckl.C19Src.union_src_lists
+#print axioms Ckl.C19Src.union_src_sets
+#print axioms Ckl.C19Src.union_src_spec
+#print axioms Ckl.C19Src.symmetric_diff_src
+#print axioms Ckl.C19Src.symmetric_diff_src_spec
+#print axioms Ckl.C19Src.require_cached_node
+#print axioms Ckl.C19Src.set_hyps_satisfiable
+#print axioms Ckl.C19Src.union_example
+-- list.ckl first_n / last_n / for_each / reverse (Proofs/C19SrcL1.lean)
+#print axioms Ckl.C19Src.first_n_src
+#print axioms Ckl.C19Src.first_n_src_take
+#print axioms Ckl.C19Src.first_n_src_neg
+#print axioms Ckl.C19Src.last_n_src
+#print axioms Ckl.C19Src.last_n_src_drop
+#print axioms Ckl.C19Src.last_n_src_zero
+#print axioms Ckl.C19Src.last_n_src_neg
+#print axioms Ckl.C19Src.for_each_src
+#print axioms Ckl.C19Src.for_each_src_native
+#print axioms Ckl.C19Src.for_each_src_closure
+#print axioms Ckl.C19Src.reverse_src_string
+#print axioms Ckl.C19Src.reverse_src_string_eq_mirror
+#print axioms Ckl.C19Src.reverse_src_list
+#print axioms Ckl.C19Src.reverse_src_list_eq_mirror
+#print axioms Ckl.C19Src.reverse_src_error
+#print axioms Ckl.C19Src.initialState_libEnv_L1
+#print axioms Ckl.C19Src.loaded_reverse
+-- list.ckl filter / flatten / unique (Proofs/C19SrcL3.lean)
+#print axioms Ckl.C19Src.filter_src_default
+#print axioms Ckl.C19Src.filter_src_eq_mirror
+#print axioms Ckl.C19Src.filter_src_is_not_null
+#print axioms Ckl.C19Src.flatten_src
+#print axioms Ckl.C19Src.flatten_src_no_list
+#print axioms Ckl.C19Src.flatten_src_eq_mirror
+#print axioms Ckl.C19Src.unique_src_ints
+#print axioms Ckl.C19Src.unique_src_eq_mirror
+#print axioms Ckl.C19Src.uniqInts_spec_L3
+-- decimals of abs / sign; the multi-frame library state (Proofs/C19SrcD4.lean)
+#print axioms Ckl.C19Src.sign_src_dec
+#print axioms Ckl.C19Src.sign_src_dec_numerator
+#print axioms Ckl.C19Src.abs_src_dec_nonneg
+#print axioms Ckl.C19Src.abs_src_dec_numerator
+#print axioms Ckl.C19Src.predicates_dec_numerator_D4
+#print axioms Ckl.C19Src.loadMods_establishes_libEnv_D4
+#print axioms Ckl.C19Src.libState_libEnv_D4
+#print axioms Ckl.C19Src.libState_abs_D4
+#print axioms Ckl.C19Src.libState_sign_dec_D4
+-- core.ckl any / all / chunks (Proofs/C19SrcL2.lean)
+#print axioms Ckl.C19Src.any_src_default
+#print axioms Ckl.C19Src.any_src_default_eq_mirror
+#print axioms Ckl.C19Src.all_src_default
+#print axioms Ckl.C19Src.all_src_default_eq_mirror
+#print axioms Ckl.C19Src.any_src_native
+#print axioms Ckl.C19Src.all_src_native
+#print axioms Ckl.C19Src.chunks_src_list
+#print axioms Ckl.C19Src.chunks_src_eq_mirror
+#print axioms Ckl.C19Src.chunks_src_nonpositive
+-- math.ckl lcm; first / last on a non-list (Proofs/C19SrcL1b.lean)
+#print axioms Ckl.C19Src.lcm_src_int
+#print axioms Ckl.C19Src.lcm_src_eq_mirror
+#print axioms Ckl.C19Src.lcm_src_zero_zero
+#print axioms Ckl.C19Src.lcm_src_zero_zero_div0
+#print axioms Ckl.C19Src.first_src_not_list
+#print axioms Ckl.C19Src.last_src_not_list
+#print axioms Ckl.C19Src.initialState_lcm_libEnv_L1
+-- list.ckl map_list (Proofs/C19SrcMapList.lean)
+#print axioms Ckl.C19Src.map_list_src
+#print axioms Ckl.C19Src.map_list_src_native
+#print axioms Ckl.C19Src.map_list_src_eq_mirror
+#print axioms Ckl.C19Src.map_list_src_is_null
+-- the registered multi-frame library state: ListMod, union / symmetric_diff end to end (Proofs/C19SrcD4Set.lean)
+#print axioms Ckl.C19Src.modKey_List_D4
+#print axioms Ckl.C19Src.modKey_Core_ne_List_D4
+#print axioms Ckl.C19Src.loadModsReg_inv_D4
+#print axioms Ckl.C19Src.libState_listMod_D4
+#print axioms Ckl.C19Src.libState_union_D4
+#print axioms Ckl.C19Src.libState_union_example_D4
+#print axioms Ckl.C19Src.libState_symmetric_diff_D4
+-- core.ckl pairs; chunks on a string (Proofs/C19SrcL2b.lean)
+#print axioms Ckl.C19Src.pairs_src_list
+#print axioms Ckl.C19Src.pairs_src_contents
+#print axioms Ckl.C19Src.chunks_src_string
+#print axioms Ckl.C19Src.chunks_src_string_eq_mirror
